@@ -937,7 +937,13 @@ def slice_window(ctx, p):
         return v, 0, len(v.ents)
     a, b = p.rng
     if not (isinstance(a, CI) and isinstance(b, CI)):
-        raise Unsupported('symbolic slice window')
+        # a window with symbolic bounds over a sequence of known extent: a read-only *view* as a sparse sequence whose entry k
+        # is present iff start <= k < end (callers that need a dense window say so themselves)
+        if not isinstance(v, Seq) or len(v.ents) > 64:
+            raise Unsupported('symbolic slice window')
+        A, B = bv(a), bv(b)
+        ents = tuple((b_and(g, simp(z3.And(z3.ULE(A, k), z3.ULT(k, B)))), x) for k, (g, x) in enumerate(v.ents))
+        return Seq(ents), 0, len(ents)
     return v, a.v, b.v
 
 
@@ -1055,7 +1061,14 @@ def _entries_of_slice(ctx, p, by_ref):
     a, b = 0, len(ents)
     if p.rng is not None:
         if not (isinstance(p.rng[0], CI) and isinstance(p.rng[1], CI)):
-            raise Unsupported('iter over symbolic window')
+            if len(ents) > 64:
+                raise Unsupported('iter over symbolic window')
+            A, B = bv(p.rng[0]), bv(p.rng[1])
+            inw = [simp(z3.And(z3.ULE(A, k), z3.ULT(k, B))) for k in range(len(ents))]
+            if by_ref:
+                dense = not (isinstance(v, Seq) and not v.dense())
+                return tuple((b_and(ents[k][0], inw[k]), Ptr(p.root, p.path + ((('i', CI(k, 64)) if dense else ('e', k)),))) for k in range(len(ents)))
+            return tuple((b_and(ents[k][0], inw[k]), ents[k][1]) for k in range(len(ents)))
         a, b = p.rng[0].v, p.rng[1].v
     if by_ref:
         if isinstance(v, Seq) and not v.dense():
